@@ -299,6 +299,31 @@ def build_property(ctx, regenerate=None, extra_targets=()):
     if bad:
         ctx.fail(f"{prop}:hygiene", "forbidden vernacular in the dependency cone",
                  {"obligation": "hygiene", "lines": bad}, False)
+    if ctx.thorough:
+        # the independent checker re-checks Props/<id>.vo and everything it depends on and lists what it had to assume
+        try:
+            p = subprocess.run(["coqchk", "-o", "-silent", "-Q", COQ, "I2N", f"I2N.Props.{prop}"], capture_output=True, text=True,
+                               timeout=1500, cwd=COQ)
+            chk_out, rc = p.stdout + p.stderr, p.returncode
+        except subprocess.TimeoutExpired:
+            chk_out, rc = "TIMEOUT", 124
+        m = re.search(r"\* Axioms:(.*?)\* Constants/Inductives relying on type-in-type: (.*?)\n.*?unsafe \(co\)fixpoints: (.*?)\n.*?positivity is assumed: (.*?)\n",
+                      chk_out, re.S)
+        if rc == 0 and m:
+            axioms = [a.strip() for a in m.group(1).splitlines() if a.strip() and a.strip() != "<none>"]
+            prim = [a for a in axioms if ".PrimInt63." in a or ".PrimFloat." in a]
+            other = [a for a in axioms if a not in prim]
+            clean = not other and all(x.strip() == "<none>" for x in m.groups()[1:])
+            ctx.coqchk = (f"coqchk -o I2N.Props.{prop}: {len(prim)} kernel primitives (PrimInt63 / PrimFloat operations, loaded with the standard "
+                          f"library), {len(other)} other axioms{': ' + ', '.join(other) if other else ''}; type-in-type {m.group(2).strip()}, "
+                          f"unsafe fixpoints {m.group(3).strip()}, assumed positivity {m.group(4).strip()}")
+        else:
+            clean = False
+            ctx.coqchk = f"coqchk failed (rc={rc}): {chk_out[-300:]}"
+        ctx.obligation("coqchk", "independent-checker", clean, ctx.coqchk)
+        ctx.trusted.append(ctx.coqchk)
+        if not clean:
+            ctx.fail(f"{prop}:coqchk", "coqchk does not accept the compiled theorems or reports an axiom", {"obligation": "coqchk", "output": chk_out[-800:]}, False)
     return ax_ok and not bad
 
 
